@@ -48,10 +48,14 @@ func init() {
 		}
 		return id
 	}
+	sched := map[*Scheduler]int{}
 	VerifScheduleHook = func(s *Scheduler, g *ExecutionGraph, enter bool, err error) {
 		t.mu.Lock()
 		defer t.mu.Unlock()
 		id := gid(g)
+		if _, ok := sched[s]; !ok {
+			sched[s] = id // the graph this scheduler was first asked to run
+		}
 		if !enter {
 			t.emit(map[string]interface{}{"e": "sched-exit", "g": id, "err": err != nil})
 			return
@@ -66,6 +70,11 @@ func init() {
 			stages = append(stages, d)
 		}
 		t.emit(map[string]interface{}{"e": "sched-enter", "g": id, "stages": stages})
+	}
+	VerifCancelHook = func(s *Scheduler) {
+		t.mu.Lock()
+		defer t.mu.Unlock()
+		t.emit(map[string]interface{}{"e": "cancel", "g": sched[s]})
 	}
 	VerifStatusHook = func(st *Stage, status int32) {
 		t.mu.Lock()
